@@ -23,6 +23,10 @@ static std::vector<std::string> g_valid;  // bytes of a few shipped zones
 
 // zcache: in a hammer workload each thread loads a name once and keeps the time_zone (as a server would), so that
 // the threads meet in the zone's lookup code rather than at the loader's map mutex
+// what the caller's time_zone holds before a load: default (UTC) or some other zone - a failing load must set it to UTC
+static cctz::time_zone preset(const Op& op) {
+  return (op.b & 1) ? cctz::fixed_time_zone(cctz::seconds(3600 * (1 + (op.b >> 1) % 5))) : cctz::time_zone();
+}
 static std::string exec_op(const Op& op, const Workload& w, std::vector<std::pair<bool, cctz::time_zone>>* zcache = nullptr) {
   char b[300];
   auto zone = [&](int a) {
@@ -33,7 +37,7 @@ static std::string exec_op(const Op& op, const Workload& w, std::vector<std::pai
     return tz;
   };
   switch (op.kind) {
-    case 0: { cctz::time_zone tz; bool ok = cctz::load_time_zone(w.names[op.a % w.names.size()], &tz); snprintf(b, sizeof b, "load %d %s", (int)ok, tz.name().c_str()); return b; }
+    case 0: { cctz::time_zone tz = preset(op); bool ok = cctz::load_time_zone(w.names[op.a % w.names.size()], &tz); snprintf(b, sizeof b, "load %d %s", (int)ok, tz.name().c_str()); return b; }
     case 1: { auto al = zone(op.a).lookup(zp::tp(op.b)); snprintf(b, sizeof b, "L %lld-%d-%d %d:%d:%d %d %d %s", (long long)al.cs.year(), al.cs.month(), al.cs.day(), al.cs.hour(), al.cs.minute(), al.cs.second(), al.offset, (int)al.is_dst, al.abbr); return b; }
     case 2: { const cctz::time_zone tz = zone(op.a); auto cl = tz.lookup(tz.lookup(zp::tp(op.b)).cs + (op.b % 3 - 1) * 1800); snprintf(b, sizeof b, "C %d %lld %lld %lld", (int)cl.kind, (long long)zp::unix_of(cl.pre), (long long)zp::unix_of(cl.trans), (long long)zp::unix_of(cl.post)); return b; }
     case 3: case 4: { cctz::time_zone::civil_transition tr; const cctz::time_zone tz = zone(op.a); bool ok = op.kind == 3 ? tz.next_transition(zp::tp(op.b), &tr) : tz.prev_transition(zp::tp(op.b), &tr);
@@ -62,7 +66,7 @@ static bool run_workload(const Workload& w, std::string* why, bool* overlapped) 
       if (op.kind == 0) {
         int n = ++inside_first_load; int m = max_inside.load(); while (n > m && !max_inside.compare_exchange_weak(m, n)) {}
         // the result of THIS call (possibly the racing first load of the name) is what is compared, not a later cached one
-        cctz::time_zone tz; const bool ok = cctz::load_time_zone(w.names[op.a % w.names.size()], &tz); zones[i].push_back(tz);
+        cctz::time_zone tz = preset(op); const bool ok = cctz::load_time_zone(w.names[op.a % w.names.size()], &tz); zones[i].push_back(tz);
         --inside_first_load;
         char b[300]; snprintf(b, sizeof b, "load %d %s", (int)ok, tz.name().c_str()); res[i].push_back(b);
         continue;
@@ -145,7 +149,7 @@ static void run(const vf::Args& a, vf::Evidence& ev, vf::Reporter& rep) {
             "over a pool of fresh names (valid zone data, missing, garbage - half of them served by a zone-data factory that "
             "holds the loader inside the load for 400 us, so other threads arrive while a first load is in progress -, "
             "fixed-offset, UTC, absolute paths of shipped zones): "
-            "load_time_zone, lookup(time_point), lookup(civil_second), next/prev_transition, format, parse, utc/fixed/local "
+            "load_time_zone (into a default time_zone or one that already holds another zone), lookup(time_point), lookup(civil_second), next/prev_transition, format, parse, utc/fixed/local "
             "factories; instants spread over different transitions of the shared zones; one workload in four is a 'hammer' "
             "(all threads do 300-1500 lookups/transition queries on one shared zone). All threads are released together. "
             "Oracle: no TSan report (halt_on_error), values equal a single-threaded re-execution, loaders of one name hold equal "
@@ -161,9 +165,9 @@ static void run(const vf::Args& a, vf::Evidence& ev, vf::Reporter& rep) {
     for (int i = 0; i < 4; ++i) w.names.push_back("mem:c13/first/" + std::to_string(a.shard) + "/" + std::to_string(i) + (i == 2 ? "/missing" : i == 3 ? "/garbage" : "/valid") + (a.shard % 2 ? "/slow" : ""));
     for (int t = 0; t < 8; ++t) {
       std::vector<Op> ops;
-      ops.push_back(Op{0, t % 4, 0});
+      ops.push_back(Op{0, t % 4, t & 1 ? 3 : 0});
       ops.push_back(Op{1, t % 4, 1700000000 + t * 1000000});
-      ops.push_back(Op{0, (t + 1) % 4, 0});
+      ops.push_back(Op{0, (t + 1) % 4, t & 2 ? 5 : 0});
       ops.push_back(Op{2, (t + 2) % 4, -1000000000 + t * 7777777});
       w.threads.push_back(ops);
     }
@@ -209,7 +213,7 @@ static void run(const vf::Args& a, vf::Evidence& ev, vf::Reporter& rep) {
       // every thread starts by loading (so first loads race), then mixes
       // the first loads concentrate on one or two "hot" names so that several threads are inside the first load of
       // the same name (valid or not) at the same time
-      ops.push_back(Op{0, *vf::range<int>(0, 2) ? hot : *vf::range<int>(0, nnames - 1), 0});
+      ops.push_back(Op{0, *vf::range<int>(0, 2) ? hot : *vf::range<int>(0, nnames - 1), *vf::range<int64_t>(0, 15)});
       for (int j = 1; j < nops; ++j) {
         Op op; op.kind = hammer ? *rc::gen::weightedElement<int>({{6, 1}, {8, 2}, {1, 3}, {1, 4}, {1, 6}})
                                 : *rc::gen::weightedElement<int>({{2, 0}, {6, 1}, {4, 2}, {1, 3}, {1, 4}, {1, 5}, {1, 6}, {1, 7}});
